@@ -8,10 +8,11 @@ pub(super) enum CompatibleDocument<'a> {
 
 impl<'a> CompatibleDocument<'a> {
     pub(super) fn from_bytes(bytes: &'a [u8]) -> Self {
-        if is_ring(bytes) {
-            Self::CleanedFromRing(fix_ring_doc(bytes.to_vec()))
-        } else {
-            Self::WellFormed(bytes)
+        // A document that carries the ring marker but does not have the shape of a ring document is
+        // left as it is, the DER parser reports what is wrong with it.
+        match fix_ring_doc(bytes) {
+            Some(fixed) => Self::CleanedFromRing(fixed),
+            None => Self::WellFormed(bytes),
         }
     }
 }
@@ -31,16 +32,18 @@ const RING_TEMPLATE_CONTEXT_SPECIFIC: &[u8] = &[0xA1, 0x23, 0x03, 0x21];
 const WELL_FORMED_CONTEXT_ONE_PREFIX: &[u8] = &[0x81, 0x21];
 
 // If present, removes a malfunctioning pubkey suffix and adjusts the length at the start.
-fn fix_ring_doc(mut doc: Vec<u8>) -> Vec<u8> {
-    assert!(!doc.is_empty());
-    // Check if first tag is ASN.1 SEQUENCE
-    assert_eq!(doc[0], 0x30);
-    // Second byte asserts the length for the rest of the document
-    assert_eq!(doc[1] as usize, doc.len() - 2);
+//
+// Returns `None` if this is not a document written by ring.
+fn fix_ring_doc(bytes: &[u8]) -> Option<Vec<u8>> {
+    // Check if first tag is ASN.1 SEQUENCE and if the second byte is the length of the rest of the
+    // document.
+    if bytes.len() < 2 || bytes[0] != 0x30 || usize::from(bytes[1]) != bytes.len() - 2 {
+        return None;
+    }
 
-    let idx = doc
-        .find(RING_TEMPLATE_CONTEXT_SPECIFIC)
-        .expect("Expected to find ring template in doc, but found none.");
+    let idx = bytes.find(RING_TEMPLATE_CONTEXT_SPECIFIC)?;
+
+    let mut doc = bytes.to_vec();
 
     // Snip off the malformed bit.
     let suffix = doc.split_off(idx);
@@ -49,13 +52,9 @@ fn fix_ring_doc(mut doc: Vec<u8>) -> Vec<u8> {
     doc.extend(WELL_FORMED_CONTEXT_ONE_PREFIX);
 
     // Then give it the actual public key.
-    doc.extend(&suffix[4..]);
+    doc.extend(&suffix[RING_TEMPLATE_CONTEXT_SPECIFIC.len()..]);
 
-    doc[1] = doc.len() as u8 - 2;
+    doc[1] = u8::try_from(doc.len() - 2).ok()?;
 
-    doc
-}
-
-fn is_ring(bytes: &[u8]) -> bool {
-    bytes.find(RING_TEMPLATE_CONTEXT_SPECIFIC).is_some()
+    Some(doc)
 }
